@@ -46,7 +46,7 @@ def gates(tier):
         "min_decided": {a: 150 * k for a in APIS[:4]} | {"cfg.materialize(n)": 20 * k},
         "shapes": {c: 3 * k for c in ["eps_rule", "nullable_cycle", "unary_cycle", "left_recursive", "duplicate_rule",
                                       "start_on_rhs", "finitely_ambiguous", "sr:Poly", "sr:Q", "sr:Boolean", "sr:MaxPlus",
-                                      "sr:Log", "sr:Real", "sr:MaxTimes", "long-member-strings", "negative-weights", "gadget:zero-first-contribution", "scale:big-grammar"]},
+                                      "sr:Log", "sr:Real", "sr:MaxTimes", "long-member-strings", "negative-weights", "gadget:zero-first-contribution", "scale:big-grammar"]} | {"scale:wide-unary-order": k},
         # no gate on tie events: on the repaired tree agenda priorities are injective (0 ties observed);
         # the tie-break policies only matter once a change makes priorities collide
         "min_events": {"heap.pop": 1000},
@@ -75,11 +75,62 @@ def zero_contribution_gadget(rng):
             "underflow": how == "underflow", "gadget": "zero-first-contribution"}
 
 
+def wide_unary_gadget(rng):
+    """scale: 30-45 independent gadgets S -> X_i -> Z_i -> t_i with a second route X_i -> C_i1 -> ... -> C_id -> Z_i
+    through a unary chain of 8-12 links: 350-550 nonterminals, several hundred levels in the unary (topological) order
+    of the parser's agenda.  weight((t_i,)) has a closed form."""
+    from fractions import Fraction as Fr
+
+    n, D = rng.randint(30, 45), rng.randint(8, 12)
+    P = [Fr(1, 2), Fr(1, 4), Fr(1), Fr(3, 4)]
+    par = [[rng.choice(P) for _ in range(D + 3)] for _ in range(n)]  # [S->X, X->Z, X->C0, C0->C1.., C(D-1)->Z]
+    return {"gadget": "wide-unary", "n": n, "D": D, "par": par, "R": rng.choice(["Float", "Float", "Real", "Q", "MaxTimes"]),
+            "maxlen": 1, "perm": rng.randrange(1 << 30), "rename": None, "underflow": False}
+
+
+def wide_unary_build(case):
+    from fractions import Fraction as Fr
+
+    n, D, par = case["n"], case["D"], case["par"]
+    V = [f"t{i}" for i in range(n)]
+    rules, want = [], {(): Fr(0)}
+    idem = case["R"] == "MaxTimes"
+    for i in range(n):
+        X, Z, C = f"X{i}", f"Z{i}", [f"C{i}_{k}" for k in range(D)]
+        p = par[i]
+        rules += [[p[0], "S", [X]], [p[1], X, [Z]], [p[2], X, [C[0]]]]
+        chain = p[2]
+        for k in range(D - 1):
+            rules.append([p[3 + k], C[k], [C[k + 1]]])
+            chain *= p[3 + k]
+        rules.append([p[D + 2], C[-1], [Z]])
+        chain *= p[D + 2]
+        rules.append([Fr(1), Z, [V[i]]])
+        want[(V[i],)] = p[0] * (max(p[1], chain) if idem else (p[1] + chain))
+    for i in range(0, n, 7):
+        want[(V[i], V[(i + 1) % n])] = Fr(0)
+    random.Random(case["perm"]).shuffle(rules)
+    return {"S": "S", "V": V, "rules": rules}, want
+
+
+class _ClosedForm:
+    "stands in for the reference oracle when the case carries its own closed-form table"
+
+    class alg:  # noqa: N801
+        exact = True
+
+    @staticmethod
+    def isz(w):
+        return w == 0
+
+
 def gen_case(rng, spec):
     from rv.gen import grammars as GG
 
     if rng.random() < 0.03:
         return zero_contribution_gadget(rng)
+    if rng.random() < 0.012:
+        return wide_unary_gadget(rng)
 
     if rng.random() < 0.06:
         # scale: 10-16 nonterminals, 6-10 terminals, a head with 8-12 alternatives, bodies up to 5, unary chains of depth 6+
@@ -137,6 +188,10 @@ def run_case(case, ctx):
     from rv.gen import grammars as GG
     from rv.ref import cfgref
 
+    closed = None
+    if case.get("gadget") == "wide-unary":
+        g0, closed = wide_unary_build(case)
+        case = dict(case, g=g0)
     g0, R = case["g"], case["R"]
     signed = any(w < 0 for w, _, _ in g0["rules"])
     an = GG.analyse(g0)
@@ -148,29 +203,36 @@ def run_case(case, ctx):
         g = GG.permute_rules(g, random.Random(case["perm"]))
     if case.get("rename"):
         g = GG.rename(g, case["rename"])
-    try:
-        # the oracle sees the variant too (Poly indeterminates are indexed by rule position)
-        O = lib.oracle_for(g, R)
-        O.e  # noqa: B018
-    except (cfgref.NotApplicable, cfgref.Singular, cfgref.NoConverge) as e:
-        ctx.skip("case", f"oracle-not-applicable:{type(e).__name__}")
-        return
-    exact = bool(getattr(O.alg, "exact", False)) and "nullable_cycle" not in cls
-    strings = GG.case_strings(g0, case["maxlen"], case.get("perm") or 11)
-    if case.get("scale"):
-        ctx.shape["scale:" + case["scale"]] += 1
-    # plus a few longer members obtained by random derivation (independent of the library)
-    longs = [x for x in GG.sample_members(g0, random.Random(case.get("perm") or 7), k=4) if x not in set(strings)]
-    if longs:
-        ctx.shape["long-member-strings"] += len(longs)
-    strings = strings + longs
-    want = {}
-    try:
-        for x in strings:
-            want[x] = O.weight(x)
-    except (cfgref.NotApplicable, cfgref.Singular, cfgref.NoConverge) as e:
-        ctx.skip("case", f"oracle-not-applicable:{type(e).__name__}")
-        return
+    if closed is not None:
+        # the generic reference is far too slow on several hundred nonterminals: the gadget carries its closed form
+        O = _ClosedForm()
+        strings, want = list(closed), closed
+        exact = R in ("Q", "MaxTimes")
+        ctx.shape["scale:wide-unary-order"] += 1
+    else:
+        try:
+            # the oracle sees the variant too (Poly indeterminates are indexed by rule position)
+            O = lib.oracle_for(g, R)
+            O.e  # noqa: B018
+        except (cfgref.NotApplicable, cfgref.Singular, cfgref.NoConverge) as e:
+            ctx.skip("case", f"oracle-not-applicable:{type(e).__name__}")
+            return
+        exact = bool(getattr(O.alg, "exact", False)) and "nullable_cycle" not in cls
+        strings = GG.case_strings(g0, case["maxlen"], case.get("perm") or 11)
+        if case.get("scale"):
+            ctx.shape["scale:" + case["scale"]] += 1
+        # plus a few longer members obtained by random derivation (independent of the library)
+        longs = [x for x in GG.sample_members(g0, random.Random(case.get("perm") or 7), k=4) if x not in set(strings)]
+        if longs:
+            ctx.shape["long-member-strings"] += len(longs)
+        strings = strings + longs
+        want = {}
+        try:
+            for x in strings:
+                want[x] = O.weight(x)
+        except (cfgref.NotApplicable, cfgref.Singular, cfgref.NoConverge) as e:
+            ctx.skip("case", f"oracle-not-applicable:{type(e).__name__}")
+            return
     members = [x for x in strings if not O.isz(want[x])]
     fp = codec.fingerprint(case)
     nontriv = bool({"eps_rule", "unary_rule", "recursive"} & set(cls)) and 0 < len(members) < len(strings)
@@ -198,8 +260,8 @@ def run_case(case, ctx):
             mech = f"{api}/value" + ("/empty-string" if len(x) == 0 else "")
         ctx.check(api, good, mech, dict(case, x=list(x)), {"x": list(x), "have": have, "want": lib.want_value(R, w), **(extra or {})})
 
-    # 1. direct evaluation
-    for x in strings:
+    # 1. direct evaluation (a few strings only on the several-hundred-nonterminal gadget: about 0.5 s each)
+    for x in (strings if closed is None else strings[:4]):
         ok, v = ctx.call("cfg(xs)", dict(case, x=list(x)), cfg, x)
         if ok:
             judge("cfg(xs)", x, v)
@@ -247,7 +309,7 @@ def run_case(case, ctx):
     # 5. tabulation
     api = "cfg.materialize(n)"
     for n in range(0, min(case["maxlen"], 3) + 1):
-        if case.get("underflow"):
+        if case.get("underflow") or closed is not None:
             break  # members whose weight underflows to 0.0 are legitimately absent from a floating-point table
         c2 = dict(case, n=n)
         ok, tab = ctx.call(api, c2, cfg.materialize, n)
